@@ -22,7 +22,7 @@ for l in '''$res'''.splitlines():
     k=re.search(r'check=(\S+) exit=(\d+) secs=(\d+) ?(.*)',l)
     if not k: continue
     cid,rc,secs,rest=k.group(1),int(k.group(2)),k.group(3),k.group(4)
-    (caught if rc==1 else missed).append(cid)
+    (caught if rc==1 else missed).append(cid if rc in (0,1) else cid+'(harness-exit-%d)'%rc)
     cls=re.search(r'class=(\S+)',rest); run=re.search(r' run=(\d+)',rest)
     detail[cid]={"exit":rc,"class":cls.group(1) if cls else None,"first_run":int(run.group(1)) if run else None}
 m['caught_by']=caught; m['not_caught_by']=missed; m['check_results']=detail
